@@ -73,7 +73,7 @@ func newStoreModel(c *kit.Ctx) *storeModel {
 			}
 		}
 		for _, call := range f.AllCalls(false) {
-			if kit.CallIs(f.Info(), call, qBegin) {
+			if isBeginCall(f, call) {
 				w.Begin = call
 			}
 			if kit.CallIs(f.Info(), call, qCommit) {
@@ -196,6 +196,10 @@ func (m *storeModel) isRootIDExpr(f *kit.Func, e ast.Expr) bool {
 // paths call it.
 func isRollback(f *kit.Func, call *ast.CallExpr) bool {
 	if kit.CallIs(f.Info(), call, qRollback) {
+		return true
+	}
+	// the rollback function handed back by a transaction opener
+	if v, ok := kit.Callee(f.Info(), call).(*types.Var); ok && openerRollbackVar(f, v) {
 		return true
 	}
 	cf := f.CalleeFunc(call)
